@@ -196,6 +196,7 @@ impl Parsable for ClusterBuilder {
         let mut blob_offsets: Vec<Offset> = Vec::with_capacity(blob_count + 1);
         let uninit = blob_offsets.spare_capacity_mut();
         let mut first = true;
+        let mut previous = Offset::zero();
         for elem in &mut uninit[0..blob_count] {
             let value: Offset = if first {
                 first = false;
@@ -203,7 +204,14 @@ impl Parsable for ClusterBuilder {
             } else {
                 parser.read_usized(header.offset_size)?.into()
             };
-            assert!(value.is_valid(data_size));
+            // Blobs are stored one after the other, inside the cluster's data.
+            if !value.is_valid(data_size) || value < previous {
+                return Err(format_error!(
+                    &format!("Blob offset ({value}) is not valid in a cluster of {data_size} bytes."),
+                    parser
+                ));
+            }
+            previous = value;
             elem.write(value);
         }
         unsafe { blob_offsets.set_len(blob_count) }
